@@ -200,7 +200,8 @@ def suspension_prev_repeat(new_note, last_note, next_note):
 def retarded(new_note, last_note, next_note):
     duration = new_note.duration
     retarded_duration = frac(1, 12)
-    new_note = L.l.set_duration(retarded_duration) + new_note.set_duration(duration - retarded_duration)
+    if duration > retarded_duration:
+        new_note = L.l.set_duration(retarded_duration) + new_note.set_duration(duration - retarded_duration)
     return new_note
 
 
